@@ -378,7 +378,46 @@ def gen_cases(ctx, rng):
         cases.append((("itd", json.dumps(form), sup),
                       "match implicit_tensor_dimensions (%s) %s with Ok r => Some r | Err _ => None end"
                       % (cf, cbool(sup)), itd_impl(form, sup), kind != "int"))
+    # ---- hadamard_transform: sampled entries against the model (sign and the
+    # exact common factor 2**(-N/2)); qubit counts across the 8-bit boundary
+    from qutip.core import gates as G
+
+    def had_impl(N, i, j):
+        def th():
+            M = hadamard_matrix(N)
+            x = M[i, j]
+            f = 2 ** (-N / 2)
+            bad = []
+            if x.imag != 0 or abs(x.real) != f:
+                bad.append("entry (%d,%d) = %r is not +-2**(-N/2)" % (i, j, x))
+                return None, bad
+            sg = 1 if x.real > 0 else -1
+            return (sg, sg), bad
+        return th
+    for N in ([1, 2, 3, 8, 9, 10] if quick else [1, 2, 3, 4, 7, 8, 9, 10, 11, 12]):
+        top = 2 ** N - 1
+        idx = {0, 1, top, top // 2, min(top, 255), min(top, 256), min(top, 257), min(top, 300),
+               min(top, 511), min(top, 512), min(top, 768)}
+        idx |= {rng.randrange(0, top + 1) for _ in range(4)}
+        idx |= {rng.randrange(top // 2, top + 1) for _ in range(3)}
+        pairs = {(i, j) for i in sorted(idx)[-5:] for j in sorted(idx)[-5:]}
+        pairs |= {(rng.choice(sorted(idx)), rng.choice(sorted(idx))) for _ in range(12)}
+        for (i, j) in sorted(pairs)[: (30 if quick else 60)]:
+            cases.append((("hadamard", N, i, j),
+                          "(hadamard_sign %d%%N %d%%N, hpow %s %d%%N %d%%N)" % (i, j, cnat(N), i, j),
+                          had_impl(N, i, j), N >= 2))
     return cases
+
+
+_HAD = {}
+
+
+def hadamard_matrix(N):
+    """the real hadamard_transform(N) as a dense array (built once per run)"""
+    if N not in _HAD:
+        from qutip.core import gates as G
+        _HAD[N] = G.hadamard_transform(N).full()
+    return _HAD[N]
 
 
 def canon_model(key, v):
@@ -393,6 +432,8 @@ def canon_model(key, v):
         def ob(x):
             return None if x is None else x[1]
         return (ob(v[0]), ob(v[1]))
+    if kind == "hadamard":
+        return (v[0], v[1])
     if kind == "basis":
         return None if v is None else v[1]
     if kind in ("w", "ghz"):
@@ -1290,6 +1331,289 @@ def boundary_oracle(ctx, rng):
     return nchk[0]
 
 
+
+# ------------------------------------------- integer-width crossing oracle
+# Sizes at which a vectorised implementation would cross the width of an
+# integer type: 2^8 and 2^16 elements / indices (qubit counts 9..12, 16, 17;
+# dimensions 255..257 and 65535..65537).  References by an independent route:
+# recursive tensor power / entry formula with Python integers on sampled
+# entries; structural laws on sampled rows and columns.
+def _bits(i, n):
+    return [(i >> (n - 1 - k)) & 1 for k in range(n)]
+
+
+def _sparse_entries(qobj):
+    A = qobj.to("csr").data.as_scipy().tocoo()
+    return {(int(i), int(j)): v for i, j, v in zip(A.row, A.col, A.data) if v != 0}
+
+
+def width_oracle(ctx, rng):
+    import qutip as q
+    from qutip.core import gates as G
+    nchk = [0]
+
+    def case(key, nontrivial=True):
+        nchk[0] += 1
+        ctx.count_case(("width",) + tuple(key), nontrivial)
+
+    def viol(site, sig, what, det):
+        ctx.violation(site, sig, what, det)
+
+    def samples(top, k=10):
+        base = {0, 1, top, top - 1, top // 2, 255, 256, 257, 65535, 65536, 65537}
+        base = {x for x in base if 0 <= x <= top}
+        return sorted(base | {rng.randrange(0, top + 1) for _ in range(k)}
+                      | {rng.randrange(top // 2, top + 1) for _ in range(k // 2)})
+
+    # ---- N-qubit Hadamard transform: tensor power of H1, unitarity, involution
+    H1 = ((1, 1), (1, -1))
+    for N in ([9, 10] if ctx.quick else [9, 10, 11, 12]):
+        case(("hadamard", N))
+        ob = G.hadamard_transform(N)
+        M = hadamard_matrix(N)
+        dim = 2 ** N
+        f = 2 ** (-N / 2)
+        idx = samples(dim - 1)
+        bad = None
+        for i in idx:
+            bi = _bits(i, N)
+            for j in idx:
+                bj = _bits(j, N)
+                sg = 1
+                for a_, b_ in zip(bi, bj):          # entry of the N-fold tensor power
+                    sg *= H1[a_][b_]
+                if M[i, j] != sg * f:
+                    bad = ("entry", i, j, sg * f, complex(M[i, j]))
+                    break
+            if bad:
+                break
+        if bad is None:
+            cols = idx[-8:] + idx[:4]
+            Gm = M[:, cols].conj().T @ M[:, cols]
+            if dev(Gm, np.eye(len(cols))) > 1e-10:
+                k_ = int(np.argmax(np.abs(Gm - np.eye(len(cols))).max(axis=1)))
+                bad = ("columns not orthonormal", cols[k_], cols[k_], 1.0, complex(Gm[k_, k_]))
+            elif dev(M[idx[-6:], :] @ M[:, idx[-6:]], np.eye(dim)[np.ix_(idx[-6:], idx[-6:])]) > 1e-10:
+                bad = ("not self-inverse", idx[-1], idx[-1], 1.0, 0.0)
+            elif not np.array_equal(M, M.T):
+                bad = ("not symmetric", 0, 0, 0, 0)
+        if bad:
+            viol("gates.hadamard_transform", bad[0].split(" ")[0] + ":width",
+                 "hadamard_transform(%d): %s at (%d, %d): expected %r (entry of the %d-fold tensor power "
+                 "of H), got %r" % (N, bad[0], bad[1], bad[2], bad[3], N, bad[4]),
+                 {"N": N, "what": bad[0], "row": bad[1], "col": bad[2], "expected": str(bad[3]), "got": str(bad[4]),
+                  "cached_flags": [flag(ob._isherm), flag(ob._isunitary)]})
+        if ob.dims != [[2] * N, [2] * N]:
+            viol("gates.hadamard_transform", "dims:width", "hadamard_transform(%d) dims" % N, {"N": N})
+        if N <= 10:
+            check_cached_flags(ctx, "hadamard_transform", [N], ob)
+
+    # ---- other qubit-count constructors across 2^8 and 2^16 amplitudes
+    for N in [9, 10, 12, 16, 17]:
+        case(("qubit_states", N))
+        w, g = q.w_state(N).full()[:, 0], q.ghz_state(N).full()[:, 0]
+        bad = []
+        if sorted(int(x) for x in np.flatnonzero(w)) != sorted(2 ** k for k in range(N)) \
+                or abs(np.linalg.norm(w) - 1) > 1e-12:
+            bad.append("w_state")
+        if [int(x) for x in np.flatnonzero(g)] != [0, 2 ** N - 1] or abs(np.linalg.norm(g) - 1) > 1e-12:
+            bad.append("ghz_state")
+        for lab in (samples(2 ** N - 1, 3)[-4:]):
+            bits = _bits(lab, N)
+            for nm, v in (("basis", q.basis([2] * N, bits)), ("ket", q.ket("".join(map(str, bits)))),
+                          ("bra", q.bra("".join(map(str, bits))).dag())):
+                arr = v.full()[:, 0]
+                if [int(x) for x in np.flatnonzero(arr)] != [lab] or arr[lab] != 1:
+                    bad.append("%s label %d" % (nm, lab))
+        for b in bad[:2]:
+            viol("states.qubit_register:width", b.split(" ")[0], "%d qubits: %s wrong" % (N, b), {"N": N, "what": b})
+    for N in [9, 10]:
+        case(("globalphase_fermion", N))
+        gp = G.globalphase(0.3, N)
+        if _sparse_entries(gp) != {(k, k): np.exp(0.3j) for k in range(2 ** N)}:
+            viol("gates.globalphase:width", "entries", "globalphase(0.3, %d) wrong" % N, {"N": N})
+        # canonical anticommutation relations of the Jordan-Wigner operators
+        c0, cl = q.fdestroy(N, 0), q.fdestroy(N, N - 1)
+        I = q.qeye([2] * N)
+        acomm = lambda a, b: (a @ b + b @ a)
+        z = lambda x: x.to("csr").data.as_scipy()
+        if abs(z(acomm(cl, cl.dag()) - I)).max() != 0 or abs(z(acomm(c0, c0.dag()) - I)).max() != 0 \
+                or abs(z(acomm(c0, cl.dag()))).max() != 0 or abs(z(acomm(c0, cl))).max() != 0 \
+                or not np.array_equal(z(q.fcreate(N, N - 1)).toarray(), z(cl.dag()).toarray()):
+            viol("operators.fdestroy:width", "anticommutator", "fdestroy(%d, .) violate the CAR" % N, {"N": N})
+
+    # ---- dimension-parameter constructors across 2^8 and 2^16
+    for N in [255, 256, 257, 65535, 65536, 65537]:
+        off = rng.choice([0, 1, 20])
+        case(("ladder_width", N, off))
+        bad = None
+        ent = _sparse_entries(q.destroy(N, off))
+        entc = _sparse_entries(q.create(N, off))
+        if len(ent) != N - 1 or len(entc) != N - 1:
+            bad = "number of entries"
+        else:
+            for i in samples(N - 2):
+                x, y = ent.get((i, i + 1)), entc.get((i + 1, i))
+                if x is None or y is None or x != y or x.imag != 0 or not ulp_close(x.real, off + i + 1):
+                    bad = "entry (%d,%d) is not sqrt(%d)" % (i, i + 1, off + i + 1)
+                    break
+        nn = q.num(N, off).diag()
+        if bad is None and any(nn[i] != off + i for i in samples(N - 1)):
+            bad = "num diagonal"
+        for lab in samples(N - 1, 2)[-3:]:
+            b = q.basis(N, lab + off, offset=off).full()[:, 0]
+            if [int(x) for x in np.flatnonzero(b)] != [lab]:
+                bad = bad or "basis(%d, %d) position" % (N, lab + off)
+        pj = _sparse_entries(q.projection(N, N - 1, 0, dtype="csr"))
+        fd = _sparse_entries(q.fock_dm(N, N - 1, dtype="csr"))
+        if bad is None and (pj != {(N - 1, 0): 1} or fd != {(N - 1, N - 1): 1}):
+            bad = "projection / fock_dm position"
+        if bad is None and (len(_sparse_entries(q.qeye(N))) != N or len(_sparse_entries(q.qzero(N))) != 0
+                            or abs(q.maximally_mixed_dm(N).tr() - 1) > 1e-9):
+            bad = "qeye / qzero / maximally_mixed_dm"
+        if bad:
+            viol("operators.ladder:width", bad.split(" ")[0], "dimension %d, offset %d: %s" % (N, off, bad),
+                 {"N": N, "offset": off, "what": bad})
+        # spin with 2j+1 = N
+        J = N - 1
+        entp = _sparse_entries(q.jmat(J / 2.0, "+"))
+        zz = q.jmat(J / 2.0, "z").diag()
+        badj = None
+        if len(entp) != J:
+            badj = "number of J+ entries"
+        else:
+            for i in samples(J - 1):
+                x = entp.get((i, i + 1))
+                if x is None or x.imag != 0 or not ulp_close(x.real, (i + 1) * (J - i)):
+                    badj = "J+ entry (%d,%d) is not sqrt(%d)" % (i, i + 1, (i + 1) * (J - i))
+                    break
+            if badj is None and any(zz[i] != J / 2.0 - i for i in samples(J)):
+                badj = "Jz diagonal"
+        if badj:
+            viol("operators.jmat:width", badj.split(" ")[0], "jmat(%g): %s" % (J / 2.0, badj), {"J": J, "what": badj})
+        # charge / tunneling / thermal / coherent(analytic) entries at sampled positions
+        half = (N - 1) // 2
+        cd = q.charge(half, half - N + 1).diag()
+        if len(cd) != N or any(cd[i] != half - N + 1 + i for i in samples(N - 1)):
+            viol("operators.charge:width", "diagonal", "charge over %d states wrong" % N, {"N": N})
+        m = 255
+        te = _sparse_entries(q.tunneling(N, m)) if N > m else {}
+        if N > m and (len(te) != 2 * (N - m) or any(te.get((i, i + m)) != 1 or te.get((i + m, i)) != 1
+                                                    for i in samples(N - m - 1))):
+            viol("operators.tunneling:width", "entries", "tunneling(%d, %d) wrong" % (N, m), {"N": N, "m": m})
+        td = q.thermal_dm(N, 2.0, method="analytic").diag()
+        for i in samples(N - 1):
+            lg = -math.log(3.0) + i * math.log(2.0 / 3.0)
+            r_ = math.exp(lg) if lg > -690 else None
+            if r_ is not None and abs(td[i] - r_) > 1e-11 * (i + 10) * r_:
+                viol("states.thermal_dm:width", "entry", "thermal_dm(%d, 2.0, analytic)[%d] wrong" % (N, i),
+                     {"N": N, "index": i})
+                break
+        al = 0.75 * math.sqrt(min(N, 1200))
+        cv = q.coherent(N, al, method="analytic").full()[:, 0]
+        rf = ref_coherent(min(N, 1400), al, 0)
+        kind = judge_vector(cv[:len(rf)], rf, 1e-11 * (len(rf) + al * al + 10))
+        if kind or abs(np.linalg.norm(cv) - 1) > 1e-9:
+            viol("states.coherent:width", kind or "norm", "coherent(%d, %g, analytic): %s" % (N, al, kind or "norm != 1"),
+                 {"N": N, "alpha": al})
+
+    # ---- dense unitary tables at 255..257: entry formula with Python integers
+    for N in [255, 256, 257]:
+        case(("qft_width", N))
+        U = q.qft(N).full()
+        bad = None
+        for j in samples(N - 1, 6):
+            for k_ in samples(N - 1, 6):
+                ang = 2 * math.pi * ((j * k_) % N) / N
+                if abs(U[j, k_] - complex(math.cos(ang), math.sin(ang)) / math.sqrt(N)) > 1e-12:
+                    bad = (j, k_)
+        if bad or dev(U @ U.conj().T, np.eye(N)) > 1e-10 * N:
+            viol("operators.qft:width", "entries" if bad else "unitary", "qft(%d) wrong at %r" % (N, bad), {"N": N})
+        pb = q.phase_basis(N, N - 1).full()[:, 0]
+        if any(abs(pb[n_] - np.exp(2j * math.pi * ((n_ * (N - 1)) % N) / N) / math.sqrt(N)) > 1e-12
+               for n_ in samples(N - 1, 4)):
+            viol("states.phase_basis:width", "entries", "phase_basis(%d, %d) wrong" % (N, N - 1), {"N": N})
+    # ---- swap(N, M): N*M across 2^8 and 2^16; action on sampled product states
+    for Na, Mb in [(15, 17), (16, 16), (17, 15), (255, 257), (256, 256), (257, 255), (1, 65537), (65536, 1)]:
+        case(("swap_width", Na, Mb))
+        sw = q.swap(Na, Mb)
+        A = sw.to("csr").data.as_scipy().tocsc()
+        bad = None
+        if A.nnz != Na * Mb or sw.dims != [[Mb, Na], [Na, Mb]] and (Na, Mb) != (1, 1):
+            bad = "nnz/dims"
+        else:
+            for col in samples(Na * Mb - 1):
+                n_, m_ = divmod(col, Mb)
+                rows = A.indices[A.indptr[col]:A.indptr[col + 1]]
+                if list(rows) != [m_ * Na + n_] or A.data[A.indptr[col]] != 1:
+                    bad = "column %d" % col
+                    break
+        if bad:
+            viol("operators.swap:width", bad.split(" ")[0], "swap(%d, %d): %s" % (Na, Mb, bad), {"N": Na, "M": Mb})
+
+    # ---- index bookkeeping with products across 2^16 and 2^32
+    from qutip.random_objects import _implicit_tensor_dimensions as itd
+    for dims in [[256, 256], [255, 257], [65536, 65536], [65537, 65535], [2] * 17, [3, 65536, 5]]:
+        case(("index_width", tuple(dims)))
+        tot = 1
+        for d in dims:
+            tot *= d
+        for lab in samples(tot - 1, 4):
+            st, r_ = [], lab
+            for d in reversed(dims):
+                r_, x = divmod(r_, d)
+                st.insert(0, x)
+            if int(q.state_number_index(dims, st)) != lab or [int(x) for x in q.state_index_number(dims, lab)] != st:
+                viol("states.state_number_index:width", "mixed radix", "state_number_index(%r, %r) != %d" % (dims, st, lab),
+                     {"dims": dims, "state": st, "index": lab})
+                break
+        # (superoperator form only where the matrix size tot^2 is an int64: larger
+        # objects cannot be allocated anyway)
+        if int(itd(dims)[0]) != tot or (tot * tot < 2 ** 62 and int(itd([dims, dims], True)[0]) != tot):
+            viol("random_objects._implicit_tensor_dimensions:width", "size", "size of %r wrong" % dims, {"dims": dims})
+    for dims, E in [([23, 23], 22), ([257, 257], 2), ([2] * 9, 2), ([16, 17], 40)]:
+        case(("enr_width", tuple(dims), E))
+        n, s2i, i2s = q.enr_state_dictionaries(dims, E)
+        allowed = [s_ for s_ in itertools.product(*[range(d) for d in dims]) if sum(s_) <= E] \
+            if np.prod(dims) <= 70000 else None
+        if allowed is not None and ([i2s[i] for i in range(n)] != allowed or any(s2i[i2s[i]] != i for i in range(n))):
+            viol("energy_restricted.enr_state_dictionaries", "enumeration (width)", "ENR states of %r, E=%d" % (dims, E),
+                 {"dims": dims, "excitations": E})
+            continue
+        a0 = _sparse_entries(q.enr_destroy(dims, E)[0])
+        want = {(s2i[(st[0] - 1,) + st[1:]], k_): st[0] for k_, st in i2s.items() if st[0] > 0}
+        if set(a0) != set(want) or any(not ulp_close(a0[k_].real, want[k_]) for k_ in want):
+            viol("energy_restricted.enr_destroy", "restriction (width)", "enr_destroy(%r, %d)[0]" % (dims, E),
+                 {"dims": dims, "excitations": E})
+
+    # ---- random generators at 255..257 and one sparse ket at 65537
+    for N in [255, 256, 257]:
+        sd = rng.randrange(1 << 30)
+        case(("random_width", N))
+        kw = {"N": N, "seed": sd}
+        H = q.rand_herm(N, 0.02, seed=sd)
+        Hm = H.full()
+        if not np.array_equal(Hm, Hm.conj().T) or H.dims != [[N], [N]]:
+            viol("random_objects.rand_herm", "width:not Hermitian", "rand_herm(%d)" % N, kw)
+        S = q.rand_stochastic(N, 0.05, seed=sd).full()
+        if np.max(np.abs(S.sum(axis=0) - 1)) > 1e-11 or (S.real < 0).any():
+            viol("random_objects.rand_stochastic", "width:not stochastic", "rand_stochastic(%d)" % N, kw)
+        U = q.rand_unitary(N, 0.5, seed=sd).full()
+        if dev(U @ U.conj().T, np.eye(N)) > 1e-9 * N:
+            viol("random_objects.rand_unitary", "width:not unitary", "rand_unitary(%d)" % N, kw)
+        D = q.rand_dm(N, rank=N - 1, seed=sd).full()
+        ev = np.linalg.eigvalsh((D + D.conj().T) / 2)
+        if abs(np.trace(D) - 1) > 1e-9 or ev.min() < -1e-9 or int(np.sum(ev > 1e-12)) != N - 1:
+            viol("random_objects.rand_dm", "width:rank/trace", "rand_dm(%d, rank=%d)" % (N, N - 1), kw)
+    for N in [65535, 65537]:
+        case(("rand_ket_width", N))
+        k_ = q.rand_ket(N, 1e-4, "fill", seed=7)
+        if abs(k_.norm() - 1) > 1e-9 or k_.shape != (N, 1):
+            viol("random_objects.rand_ket", "width:not normalised", "rand_ket(%d, fill)" % N, {"N": N})
+    report_flags(ctx)
+    return nchk[0]
+
+
 # ------------------------------------------------------------------------ run
 
 
@@ -1336,7 +1660,10 @@ def run(ctx):
         "every constructor family at offsets/dimensions/spins around 20-25 (int64 factorial), "
         "170-175 and 250-1600 (double range), |alpha| up to 42 (exp underflow), N up to 1000, "
         "against log-gamma / exact-integer references; non-finite entries and norms > 1 are "
-        "direct violations.")
+        "direct violations.  Width oracle: qubit counts 9-12, 16, 17 and dimensions 255-257, "
+        "65535-65537 (2^8 / 2^16 index and element counts) against tensor-power / entry-formula "
+        "references evaluated with Python integers on sampled entries, plus sampled-column "
+        "unitarity, involution and flag checks.")
     ctx.cov["trusted_base"] += [
         "Model/C20.v is hand-written from operators.py / states.py / energy_restricted.py / "
         "random_objects.py / the shared front end of data/{dia,csr,dense}.pyx diags; tied by the "
@@ -1469,6 +1796,7 @@ def run(ctx):
     n = oracle(ctx, rng)
     ctx.cov["oracle_checks"] = n
     ctx.cov["boundary_checks"] = boundary_oracle(ctx, rng)
+    ctx.cov["width_checks"] = width_oracle(ctx, rng)
     ctx.cov["explanation"] = (
         "Theorems (Props/C20.v) hold for every dimension/offset/spin/excitation bound of the "
         "models; models are tied to the source by exact comparison on generated parameters in "
@@ -1510,6 +1838,9 @@ def replay(ctx, payload):
         ob = q.qdiags([0, 0], 1)
         if ob._isherm is False and not np.any(ob.full()):
             ctx.violation(site, payload["signature"], "qdiags([0,0],1) flagged isherm=False", d)
+        return
+    if ":width" in site or ":width" in str(payload.get("signature")) or site == "gates.hadamard_transform":
+        width_oracle(ctx, random.Random(payload.get("seed", 0) * 7919 + 20))
         return
     if ":boundary" in site or site.startswith("states.coherent:") or site.startswith("states.thermal_dm:"):
         boundary_oracle(ctx, random.Random(payload.get("seed", 0) * 7919 + 20))
